@@ -34,7 +34,7 @@ theorem mem_prefixes_take {α} (l pre : List α) (h : pre ∈ prefixes l) : ∃ 
 selects what it selected before, or the new version, fully written. -/
 theorem crash_sel_atomic (sw : Bool) (fs : FS) (c : Content) (cls : Cls) (v k : Nat) :
     storageLoad (crashFS ⟨.atomicReplace, sw⟩ fs c cls v k) = storageLoad fs ∨
-      (c ≠ .bothFail ∧ storageLoad (crashFS ⟨.atomicReplace, sw⟩ fs c cls v k) = .ok cls v) := by
+      (c.fails = false ∧ storageLoad (crashFS ⟨.atomicReplace, sw⟩ fs c cls v k) = .ok cls v) := by
   unfold crashFS
   have hm := take_mem_prefixes (saveSteps (Cfg.mk .atomicReplace sw).saveMode c cls v) k
   generalize (saveSteps (Cfg.mk .atomicReplace sw).saveMode c cls v).take k = pre at hm
@@ -42,57 +42,57 @@ theorem crash_sel_atomic (sw : Bool) (fs : FS) (c : Content) (cls : Cls) (v k : 
   cases c <;>
     simp [saveSteps, attempt, prefixes] at hm <;>
     rcases hm with rfl | rfl | rfl | rfl | rfl | rfl | rfl | rfl | rfl | rfl <;>
-    simp [runSteps, Step.apply, FS.set, FS.get, storageLoad] <;>
+    simp [runSteps, Step.apply, FS.set, FS.get, storageLoad, Content.fails] <;>
     cases p <;> cases q <;> simp
 
 /-- ... and the two save files themselves are untouched by every prefix of a save that fails
 under both picklers -/
-theorem crash_bothFail_files_atomic (sw : Bool) (fs : FS) (cls : Cls) (v k : Nat) :
-    (crashFS ⟨.atomicReplace, sw⟩ fs .bothFail cls v k).pckl = fs.pckl ∧
-      (crashFS ⟨.atomicReplace, sw⟩ fs .bothFail cls v k).cpckl = fs.cpckl := by
+theorem crash_bothFail_files_atomic (sw : Bool) (fs : FS) (c : Content) (hf : c.fails = true) (cls : Cls) (v k : Nat) :
+    (crashFS ⟨.atomicReplace, sw⟩ fs c cls v k).pckl = fs.pckl ∧
+      (crashFS ⟨.atomicReplace, sw⟩ fs c cls v k).cpckl = fs.cpckl := by
   unfold crashFS
-  have hm := take_mem_prefixes (saveSteps (Cfg.mk .atomicReplace sw).saveMode .bothFail cls v) k
-  generalize (saveSteps (Cfg.mk .atomicReplace sw).saveMode .bothFail cls v).take k = pre at hm
+  have hm := take_mem_prefixes (saveSteps (Cfg.mk .atomicReplace sw).saveMode c cls v) k
+  generalize (saveSteps (Cfg.mk .atomicReplace sw).saveMode c cls v).take k = pre at hm
   obtain ⟨d, p, q, pt, ct⟩ := fs
-  simp [saveSteps, attempt, prefixes] at hm
-  rcases hm with rfl | rfl | rfl | rfl | rfl | rfl <;>
+  cases c <;> simp [Content.fails] at hf <;>
+    simp [saveSteps, attempt, prefixes] at hm <;>
+    rcases hm with rfl | rfl | rfl | rfl | rfl | rfl <;>
     simp [runSteps, Step.apply, FS.set]
 
 /-- a save that raises (content unserialisable by both picklers) leaves both save files alone -/
-theorem save_bothFail_files_atomic (sw : Bool) (fs : FS) (cls : Cls) (v : Nat) :
-    (saveFS ⟨.atomicReplace, sw⟩ fs .bothFail cls v).pckl = fs.pckl ∧
-      (saveFS ⟨.atomicReplace, sw⟩ fs .bothFail cls v).cpckl = fs.cpckl := by
+theorem save_bothFail_files_atomic (sw : Bool) (fs : FS) (c : Content) (hf : c.fails = true) (cls : Cls) (v : Nat) :
+    (saveFS ⟨.atomicReplace, sw⟩ fs c cls v).pckl = fs.pckl ∧
+      (saveFS ⟨.atomicReplace, sw⟩ fs c cls v).cpckl = fs.cpckl := by
   obtain ⟨d, p, q, pt, ct⟩ := fs
-  simp only [saveFS, saveSteps, attempt, List.cons_append, List.nil_append, runSteps, Step.apply,
-    FS.set]
-  by_cases hn : ({ dir := true, pckl := p, cpckl := q, pcklTmp := .absent, cpcklTmp := .absent } : FS).noFiles = true <;>
-    simp [hn]
+  cases c <;> simp [Content.fails] at hf <;>
+    simp [saveFS, saveSteps, attempt, runSteps, Step.apply, FS.set, FS.noFiles] <;>
+    (repeat' split) <;> simp_all
 
 theorem storageLoad_congr (a b : FS) (h1 : a.pckl = b.pckl) (h2 : a.cpckl = b.cpckl) :
     storageLoad a = storageLoad b := by
   simp [storageLoad, h1, h2]
 
-theorem save_bothFail_sel_atomic (sw : Bool) (fs : FS) (cls : Cls) (v : Nat) :
-    storageLoad (saveFS ⟨.atomicReplace, sw⟩ fs .bothFail cls v) = storageLoad fs :=
-  storageLoad_congr _ _ (save_bothFail_files_atomic sw fs cls v).1 (save_bothFail_files_atomic sw fs cls v).2
+theorem save_bothFail_sel_atomic (sw : Bool) (fs : FS) (c : Content) (hf : c.fails = true) (cls : Cls) (v : Nat) :
+    storageLoad (saveFS ⟨.atomicReplace, sw⟩ fs c cls v) = storageLoad fs :=
+  storageLoad_congr _ _ (save_bothFail_files_atomic sw fs c hf cls v).1 (save_bothFail_files_atomic sw fs c hf cls v).2
 
 /-! ### a completed save is what `_load` selects (both variants, any starting file system) -/
 
-theorem save_last_wins (cfg : Cfg) (fs : FS) (c : Content) (cls : Cls) (v : Nat) (hc : c ≠ .bothFail) :
+theorem save_last_wins (cfg : Cfg) (fs : FS) (c : Content) (cls : Cls) (v : Nat) (hc : c.fails = false) :
     storageLoad (saveFS cfg fs c cls v) = .ok cls v := by
   obtain ⟨d, p, q, pt, ct⟩ := fs
   obtain ⟨m, sw⟩ := cfg
   cases m <;> cases c <;>
-    simp_all [saveFS, saveSteps, attempt, runSteps, Step.apply, FS.set, FS.get, FS.noFiles, storageLoad]
+    simp_all [saveFS, saveSteps, attempt, runSteps, Step.apply, FS.set, FS.get, FS.noFiles, storageLoad, Content.fails]
 
 /-- after a completed save no temporary is left and the directory exists -/
-theorem save_ok_tidy (cfg : Cfg) (fs : FS) (c : Content) (cls : Cls) (v : Nat) (hc : c ≠ .bothFail)
+theorem save_ok_tidy (cfg : Cfg) (fs : FS) (c : Content) (cls : Cls) (v : Nat) (hc : c.fails = false)
     (ht : fs.pcklTmp = .absent ∨ cfg.saveMode = .atomicReplace) :
     (saveFS cfg fs c cls v).dir = true ∧ (saveFS cfg fs c cls v).pcklTmp = .absent := by
   obtain ⟨d, p, q, pt, ct⟩ := fs
   obtain ⟨m, sw⟩ := cfg
   cases m <;> cases c <;>
-    simp_all [saveFS, saveSteps, attempt, runSteps, Step.apply, FS.set, FS.get, FS.noFiles]
+    simp_all [saveFS, saveSteps, attempt, runSteps, Step.apply, FS.set, FS.get, FS.noFiles, Content.fails]
 
 /-! ### delete -/
 
@@ -194,18 +194,17 @@ theorem sel_step_atomic (sw : Bool) (w : World) (p : Promise) (op : Op) (h : Sel
     Sel w.node.cls (p.step op) (step ⟨.atomicReplace, sw⟩ w op).1.fs := by
   cases op with
   | save c v =>
-    by_cases hc : c = .bothFail
-    · subst hc
-      simp only [step, Promise.step]
+    cases hf : c.fails
+    · have hl := save_last_wins ⟨.atomicReplace, sw⟩ w.fs c w.node.cls v hf
+      simp_all [step, Promise.step, Sel]
+    · simp only [step, Promise.step, hf, if_true]
       unfold Sel at h ⊢
-      rw [save_bothFail_sel_atomic]; exact h
-    · have hl := save_last_wins ⟨.atomicReplace, sw⟩ w.fs c w.node.cls v hc
-      cases c <;> simp_all [step, Promise.step, Sel]
+      rw [save_bothFail_sel_atomic sw w.fs c hf]; exact h
   | crash c v k =>
     have hs := crash_sel_atomic sw w.fs c w.node.cls v k
     unfold Sel at h ⊢
-    cases c <;> simp only [step, Promise.step] <;>
-      rcases hs with hs | ⟨hne, hs⟩ <;> rw [hs] <;> (try simp at hne) <;>
+    cases c <;> simp only [step, Promise.step, Content.fails] <;>
+      rcases hs with hs | ⟨hne, hs⟩ <;> rw [hs] <;> (try simp [Content.fails] at hne) <;>
       cases hp : p.last <;> simp_all <;> grind
   | load => rw [step_fs_readonly _ _ _ (Or.inl rfl)]; exact h
   | reopen => rw [step_fs_readonly _ _ _ (Or.inr (Or.inl rfl))]; exact h
@@ -230,23 +229,22 @@ def SelExact (cls : Cls) (p : Promise) (fs : FS) : Prop :=
 
 theorem selExact_step (cfg : Cfg) (w : World) (p : Promise) (op : Op) (h : SelExact w.node.cls p w.fs)
     (hop : (match op with
-      | .save .bothFail _ => p.last.isNone
+      | .save c _ => !c.fails || p.last.isNone
       | .crash _ _ _ => p.last.isNone
       | _ => true) = true) :
     SelExact w.node.cls (p.step op) (step cfg w op).1.fs := by
   cases op with
   | save c v =>
-    by_cases hc : c = .bothFail
-    · subst hc
-      simp at hop
+    cases hf : c.fails
+    · have hl := save_last_wins cfg w.fs c w.node.cls v hf
+      simp_all [step, Promise.step, SelExact]
+    · simp [hf] at hop
       intro v' hv'
-      simp [Promise.step, hop] at hv'
-    · have hl := save_last_wins cfg w.fs c w.node.cls v hc
-      cases c <;> simp_all [step, Promise.step, SelExact]
+      simp [Promise.step, hf, hop] at hv'
   | crash c v k =>
     simp at hop
     intro v' hv'
-    cases c <;> simp [Promise.step, hop] at hv'
+    cases hf : c.fails <;> simp [Promise.step, hf, hop] at hv'
   | load => rw [step_fs_readonly _ _ _ (Or.inl rfl)]; exact h
   | reopen => rw [step_fs_readonly _ _ _ (Or.inr (Or.inl rfl))]; exact h
   | loadForeign c v => rw [step_fs_readonly _ _ _ (Or.inr (Or.inr ⟨c, v, rfl⟩))]; exact h
